@@ -484,6 +484,8 @@ impl Monitor for C18 {
         v.push("self_comparisons".into());
         v.push("mirror_comparisons".into());
         v.push("name_at_255_byte_limit".into());
+        v.push("versions/new_is_older".into());
+        v.push("versions/new_is_younger".into());
         v
     }
     fn run_case(&self, label: &str, seed: u64, tier: Tier) -> CaseOut {
@@ -535,6 +537,20 @@ impl Monitor for C18 {
             }
         }
         sanitize_replacements(&mut old, &mut new);
+        // release versions: equal, new younger than old, or new OLDER than old (comparing a release with
+        // its predecessor); the report is relative to the receiver whatever the dates say
+        match rng.below(3) {
+            0 => {}
+            1 => {
+                new.version = (old.version.0.saturating_add(1), old.version.1, old.version.2);
+                out.bucket("versions/new_is_younger");
+            }
+            _ => {
+                old.version = (old.version.0.max(1), old.version.1, old.version.2);
+                new.version = (old.version.0 - 1, old.version.1, old.version.2);
+                out.bucket("versions/new_is_older");
+            }
+        }
         out.sig = hash_u64s(&[old.content_hash(), new.content_hash()]);
         out.nontrivial = old.content_hash() != new.content_hash();
         out.case = Json::obj().set("edits", Json::arr_str(&applied)).set("old", old.to_json()).set("new", new.to_json());
